@@ -67,6 +67,7 @@ from ..spec import POS, NEG, EP, EN, raises, unmodelled_text, pc_text  # noqa: E
 from ..terms import (App as _A, Num, Tup, same, show, sub, add, mul, div, to_poly, mk_num, Poly, cmp0, negate, atoms_of, subst, is_const, const_of,  # noqa: E402
                      compare, disj)
 from ..mirror import lint  # noqa: E402
+from ..terms import V, walk, contains  # noqa: E402
 from ..typestate import strip_views  # noqa: E402
 
 HP, HN = _A("len", (POS,)), _A("len", (NEG,))
@@ -263,6 +264,25 @@ def sample_wellformed(ctx, chk):
                           "score_analysis/scores.py:%s" % getattr(e.get("node"), "lineno", "?"))
         else:
             chk.hold("R11.8", label + ":path[%s]" % "".join("T" if t else "F" for _c, t in o.pc)[-12:], "no in-place write reaches the source's score arrays", nontrivial=False)
+        if isinstance(res, Obj):
+            # a sample gathered into a buffer that is KEPT on the source (np.take(..., out=buffer) with the buffer stored in the source's
+            # state): the next draw overwrites the arrays of this sample
+            kept = [e for e in o.events if e["kind"] in ("dict_store", "attr_store") and not e.get("in_init") and isinstance(e.get("value"), V)
+                    and isinstance(e.get("obj"), Obj) and e["obj"] is not res and e["obj"].attrs.get("pos") == POS]
+            shared = None
+            for nm in ("pos", "neg"):
+                outs_kw = []
+                walk(res.attrs.get(nm), lambda t: outs_kw.append(t.kwd("out")) if isinstance(t, _A) and t.kwd("out") is not None else None) if isinstance(res.attrs.get(nm), V) else None
+                for ob in outs_kw:
+                    for e in kept:
+                        if contains(ob, lambda t, val=e["value"]: t == val):
+                            shared = shared or (nm, e)
+            if shared is not None:
+                nm, e = shared
+                chk.violation("R11.8", BS, "%s:sample-in-kept-buffer" % label, "the sample's %s array is written into a buffer that is stored on the source (self.%s%s)" % (
+                    nm, e.get("attr", "?"), "[%s]" % show(e["key"], 20) if e.get("key") is not None else ""),
+                    "every sample owns its arrays: the next draw from the same source must not overwrite a sample drawn earlier",
+                    "score_analysis/scores.py:%s" % getattr(e.get("node"), "lineno", "?"))
         if not isinstance(res, Obj):
             chk.unknown("R11.1", "%s returns %s" % (label, show(res, 60)))
             continue
